@@ -50,7 +50,8 @@ fn gen(ch: &mut Ch, _thorough: bool) -> Option<Case> {
     let named = ch.flag();
     // 4 = `#[derive_ex(Deref)] #[derive_ex(DerefMut)]` stacked
     let list = ch.pick(5);
-    let core_mod = ch.flag();
+    // (every generated case module now sits next to sibling modules named core / std / alloc, see runner.rs)
+    let core_mod = false;
     let raw = ch.flag();
     let entry = *ch.of(&Entry::BOTH);
     if raw && !named {
